@@ -1631,6 +1631,12 @@ func (n *pkgNorm) wrapFuncValues(cands map[*types.Func]*callee) map[string][]edi
 				if s == nil || s.Kind() != types.MethodVal {
 					return true
 				}
+				if _, isPtr := n.info.TypeOf(se.X).(*types.Pointer); !isPtr {
+					// a method value on a non-pointer operand copies (or takes the address of) the operand when it is
+					// formed; calling later through the variable is not the same program
+					n.keep("%s used as a value at %s: operand is not a pointer", strings.Replace(c.key, "\t", ".", 1), n.shortPos(whole.Pos()))
+					return true
+				}
 				rid, ok := ast.Unparen(se.X).(*ast.Ident)
 				if !ok {
 					n.keep("%s used as a value at %s: receiver is not a plain variable", strings.Replace(c.key, "\t", ".", 1), n.shortPos(whole.Pos()))
